@@ -8,6 +8,7 @@ Two kinds of base list:
      per-frame landmark files resolved lazily through the file-system seam.
 Reference model: ordinary Python lists of expression trees.
 """
+import functools
 import itertools
 import os
 import shutil
@@ -82,7 +83,7 @@ class Lazy(Machine):
                        "per_element_map", "negative_index", "index_out_of_range", "numpy_index",
                        "depth_ge_4", "interleaved_videos", "truncated_read_raises", "mixed_video_instrumented",
                        "read_folder_backed", "caller_list_mutated_after_use", "fancy_one_shot_iterable", "partial_iteration",
-                       "video_with_large_frames", "equal_but_different_plain_values",
+                       "video_with_large_frames", "equal_but_different_plain_values", "callable_plain_values",
                        "two_overlapping_iterations_of_one_list", "relative_glob_then_working_directory_changes",
                        "index_like_object", "augmented_add_after_adding_nothing", "longer_clip_with_fractional_frame_rate",
                        "per_element_map_from_a_dict_view", "per_element_map_from_an_object_array",
@@ -154,6 +155,7 @@ class Lazy(Machine):
         self.videos = []      # VideoSpec
         self.vlists = []      # pool-independent (LazyList, model) of each imported video
         self.folders = []     # dict(n, lm set, how) of each image folder
+        self._callable_values = []   # (object, stable token) of callable values put into plain lists
         self.caller_lists = []  # mutable lists the caller passed to an operation earlier (plain lists, callable lists)
         self.root = None
         self.fs = None
@@ -221,6 +223,12 @@ class Lazy(Machine):
 
     def _canon(self, x):
         """Canonical (hashable) form of an element value; decodes video frames."""
+        if x is PointCloud:
+            return ("callable_value", "PointCloud")
+        if callable(x):
+            for v, token in self._callable_values:
+                if x is v:
+                    return token
         if isinstance(x, PointCloud) and not isinstance(x, Image):
             p = np.asarray(x.points)
             return ("lmfile", int(round(p[0, 0])), int(round(p[0, 1])))
@@ -691,6 +699,14 @@ class Lazy(Machine):
         plain = [("p", b, i) for i in range(op["n"])]
         if b % 3 == 1:
             plain = self._twins(b, op["n"])
+        if b % 7 == 5:
+            # values that happen to be callable (a list of callbacks is still a list of values): reading such an
+            # element returns the object the caller put there and never calls it (a call of the first two kinds
+            # would also show up as an evaluation event)
+            self.ctx.probe("callable_plain_values")
+            plain = [[functools.partial(self._base_callable(b, i)), self._base_callable(b, i),
+                      functools.partial(int, "7"), PointCloud][(b + i) % 4] for i in range(op["n"])]
+            self._callable_values.extend((v, ("callable_value", b, i)) for i, v in enumerate(plain) if v is not PointCloud)
         self.caller_lists.append(plain)
         if b % 4 == 2:
             # the accumulator idiom: start from "this list plus nothing", then grow with +=; as with ordinary lists
